@@ -39,7 +39,8 @@ package main
 //	   over whole (`b...`, `b[:]...`, `AddWordsFromBytesStream(b[:])`), is the sequence of appends in offset order —
 //	   if and only if the writes tile [0,N) exactly (no gap, no overlap; a write over exactly the same window replaces
 //	   the earlier one) and every write and the use lie in one mutation epoch (so reading the fields earlier or later
-//	   is the same).  Any other use of the buffer is refused.
+//	   is the same).  `copy(b[lo:hi], c.F[:])` of a field declared `[hi-lo]types.UCHAR` is a tile too (the array itself,
+//	   as `append(…, c.F[:]...)`).  Any other use of the buffer is refused.
 //
 // Unmarshal side (normUnmarshal):
 //
@@ -63,6 +64,8 @@ package main
 //	   `offset`), a later declaration `v := 0` is `offset := 0` at the top plus `offset = 0` there (nothing in between
 //	   can mention it), and a final `return 0, nil` is `offset = 0; return offset, nil`.  The pure getters
 //	   `_ = c.GetParameters().GetBytes()` / `_ = c.GetData().GetBytes()` may be absent.
+//	U7 `if C { return … } else { A }` is `if C { return … }; A`, and `if a < b { A } else { return … }` is
+//	   `if a >= b { return … }; A` (comparison negated over the integers), when A declares nothing (its scope widens).
 //	U6 hoisted element bound.  `avail := 0; if len(b) > off { avail = (len(b)-off)/K }; n := COUNT; if avail < n
 //	   { n = avail }; for r := n; r > 0; r-- { BODY }; if n < COUNT { return off, E }` is `for i := 0; i < COUNT; i++
 //	   { if len(b) < off+K { return off, E }; BODY }` PROVIDED each pass of BODY advances `off` by exactly K: BODY ends
@@ -459,6 +462,7 @@ type mstate struct {
 	alias   map[string]string
 	used    map[string]bool
 	body    *ast.BlockStmt
+	cmd     *jCmd
 }
 
 type mtable struct {
@@ -487,6 +491,7 @@ func (nz *normaliser) normMarshal(fd *ast.FuncDecl, c *jCmd) []ast.Stmt {
 		st.used[n] = true
 	}
 	st.body = fd.Body
+	st.cmd = c
 	// M2 aliases of a byte order: assigned exactly once in the function
 	for _, s := range list {
 		if as, ok := s.(*ast.AssignStmt); ok && as.Tok == token.DEFINE && len(as.Lhs) == 1 && len(as.Rhs) == 1 {
@@ -911,6 +916,25 @@ func (nz *normaliser) bufWrite(s0 ast.Stmt, s string, st *mstate) bool {
 		if !ok || len(ce.Args) != 2 {
 			return false
 		}
+		if nz.s(ce.Fun) == "copy" {
+			// copy(b[lo:hi], c.F[:]) of a field declared [hi-lo]types.UCHAR: exactly that array, like append(…, c.F[:]...)
+			se, ok := ce.Args[0].(*ast.SliceExpr)
+			if !ok || se.Low == nil || se.High == nil || se.Max != nil {
+				return false
+			}
+			id, ok := se.X.(*ast.Ident)
+			if !ok || st.bufs[id.Name] == nil {
+				return false
+			}
+			lo, ok1 := nz.constInt(se.Low, nil)
+			hi, ok2 := nz.constInt(se.High, nil)
+			m := regexp.MustCompile(`^c\.(\w+)\[:\]$`).FindStringSubmatch(nz.s(ce.Args[1]))
+			if !ok1 || !ok2 || m == nil || st.cmd == nil || fieldType(st.cmd, m[1]) != fmt.Sprintf("[%d]types.UCHAR", hi-lo) {
+				fail(nz.fset, s0, "Marshal: copy into %s is not a whole fixed byte array into a window of its size: %s", id.Name, s)
+			}
+			add(id.Name, tile{lo: int(lo), hi: int(hi), epoch: st.epoch, text: []string{fmt.Sprintf("$S = append($S, c.%s[:]...)", m[1])}})
+			return true
+		}
 		m := regexp.MustCompile(`^binary\.(Little|Big)Endian\.PutUint(16|32|64)$`).FindStringSubmatch(nz.s(ce.Fun))
 		if m == nil {
 			return false
@@ -1093,6 +1117,7 @@ func (nz *normaliser) normUnmarshal(fd *ast.FuncDecl, c *jCmd) []ast.Stmt {
 	list := fd.Body.List
 	orig := list
 	list = nz.splitIfInit(list)
+	list = nz.mapBlocks(list, nz.elseReturn)
 	list = nz.inlineCalls(fd, list)
 	list = nz.mapBlocks(list, nz.guardForms)
 	list = nz.mapBlocks(list, nz.sliceTemps)
@@ -1180,6 +1205,67 @@ func (nz *normaliser) splitIfInit(list []ast.Stmt) []ast.Stmt {
 	})
 }
 
+// U7
+func (nz *normaliser) elseReturn(l []ast.Stmt) []ast.Stmt {
+	neg := map[token.Token]token.Token{token.LSS: token.GEQ, token.GEQ: token.LSS, token.GTR: token.LEQ, token.LEQ: token.GTR, token.EQL: token.NEQ, token.NEQ: token.EQL}
+	endsInReturn := func(b *ast.BlockStmt) bool {
+		if len(b.List) != 1 {
+			return false
+		}
+		_, ok := b.List[0].(*ast.ReturnStmt)
+		return ok
+	}
+	defines := func(b *ast.BlockStmt) bool {
+		d := false
+		for _, s := range b.List {
+			switch t := s.(type) {
+			case *ast.AssignStmt:
+				d = d || t.Tok == token.DEFINE
+			case *ast.DeclStmt:
+				d = true
+			}
+		}
+		return d
+	}
+	var out []ast.Stmt
+	changed := false
+	for _, s := range l {
+		is, ok := s.(*ast.IfStmt)
+		if ok && is.Init == nil && is.Else != nil {
+			if eb, ok := is.Else.(*ast.BlockStmt); ok {
+				be, isCmp := is.Cond.(*ast.BinaryExpr)
+				switch {
+				case endsInReturn(is.Body) && !defines(eb):
+					// if C { return … } else { A }  =  if C { return … }; A
+					cp := nz.clone(s).(*ast.IfStmt)
+					rest := cp.Else.(*ast.BlockStmt).List
+					cp.Else = nil
+					out = append(out, cp)
+					out = append(out, rest...)
+					changed = true
+					continue
+				case endsInReturn(eb) && !defines(is.Body) && isCmp && neg[be.Op] != 0:
+					// if a < b { A } else { return … }  =  if a >= b { return … }; A
+					cp := nz.clone(s).(*ast.IfStmt)
+					cp.Cond.(*ast.BinaryExpr).Op = neg[be.Op]
+					rest := cp.Body.List
+					cp.Body = cp.Else.(*ast.BlockStmt)
+					cp.Else = nil
+					out = append(out, cp)
+					out = append(out, rest...)
+					changed = true
+					continue
+				}
+			}
+		}
+		out = append(out, s)
+	}
+	if !changed {
+		return l
+	}
+	return out
+}
+
 // U3
 func (nz *normaliser) guardForms(l []ast.Stmt) []ast.Stmt {
 	var out []ast.Stmt
@@ -1195,6 +1281,7 @@ func (nz *normaliser) guardForms(l []ast.Stmt) []ast.Stmt {
 							nc = fmt.Sprintf("%s < %s+%s", nz.s(sub.X), nz.s(sub.Y), nz.operand(be.Y))
 						}
 					}
+				case token.GEQ: // off+n >= len(b)+1 is not written; len(b) >= off+n is the negated guard and has no early return
 				case token.GTR: // off+n > len(b)
 					if add, ok := be.X.(*ast.BinaryExpr); ok && add.Op == token.ADD && regexp.MustCompile(`^len\(\w+\)$`).MatchString(nz.s(be.Y)) {
 						if _, isId := add.X.(*ast.Ident); isId {
